@@ -323,6 +323,65 @@ def run_large(cases):
     return p
 
 
+# ------------------------------------------------------------------------------------------
+# 221YYY spans over elements and pure state operators: every descriptor takes one place in the span, whatever its kind
+DNP_TOKENS = [1001, 12001, 10, 201130, 201000, 202129, 202000, 208002, 208000, 5002]
+
+
+def dnp_cases(tier):
+    """(YYY, descriptors after 221YYY): every sequence of <= 3 (4) tokens followed by two elements outside classes 1-9"""
+    import itertools
+    out = []
+    L = 3 if tier == 'quick' else 4
+    for n in range(1, L + 1):
+        for body in itertools.product(DNP_TOKENS, repeat=n):
+            if not any(t // 100000 == 2 for t in body):
+                continue                    # spans of plain elements are in the template grammar
+            for y in range(1, n + 2):
+                out.append((y, list(body)))
+    return out
+
+
+def dnp_build(case, nsub=1, comp=False):
+    from mc.ref import message
+    y, body = case
+    descs = [1001, 221000 + y] + body + [12001, 10, 1002]
+    B, D = S.tables_for(33)
+
+    def chooser(info):
+        w = info['width']
+        if comp:
+            return [S.distinct_raw(info, s_, w) for s_ in range(nsub)]
+        return S.distinct_raw(info, info['subset'], w)
+    buf, subs, notes, nb = codec.encode(B, D, descs, nsub, comp, chooser)
+    spec = message.Spec(edition=4, descs=descs, nsub=nsub, compressed=comp)
+    return message.build(spec, buf)[0], spec, subs, notes
+
+
+def run_dnp(cases):
+    p = Partial()
+    for case in cases:
+        for nsub, comp in ((1, False), (2, True)):
+            p.n['exec'] += 1
+            try:
+                b, spec, subs, notes = dnp_build(case, nsub, comp)
+            except (codec.RefError, ValueError):
+                p.n['envelope_skipped'] += 1
+                continue
+            if notes:
+                p.n['envelope_skipped'] += 1
+                continue
+            for which, dec in (('plain', CC.decoder()), ('compiled', CC.compiled_decoder())):
+                st = S.impl_decode(dec, b, wire_template_data=False)
+                d = ('decode-raises:' + st[1], st[2][:160]) if st[0] == 'exc' else S.compare_subsets(st[1], subs)
+                p.outcome((case[0], len(case[1]), comp, which, len(subs[0].labels)))
+                if d:
+                    p.violation('dnp-span|%s|%s' % (d[0], which), {'case': [case[0], case[1]], 'nsub': nsub, 'compressed': comp, 'decoder': which},
+                                '221%03d %s: %s' % (case[0], case[1], d[1]), observed=b)
+    p.n['nodes'], p.n['edges'] = p.n['exec'] + 1, p.n['exec']
+    return p
+
+
 def replay(part, case):
     if part.startswith('bitmap'):
         s_ = case['struct']
@@ -330,6 +389,10 @@ def replay(part, case):
         return [{'sig': v['sig'], 'detail': v['detail']} for v in p.viol if v['case']['choices'] == case['choices']]
     if part.startswith('tree'):
         return CC.replay_tree(case)
+    if part == 'dnp-spans':
+        p = run_dnp([(case['case'][0], case['case'][1])])
+        return [{'sig': v['sig'], 'detail': v['detail']} for v in p.viol
+                if v['case']['decoder'] == case['decoder'] and v['case']['compressed'] == case['compressed']]
     if part == 'large':
         p = run_large([tuple(case['case'])])
         return [{'sig': v['sig'], 'detail': v['detail']} for v in p.viol if v['case']['decoder'] == case['decoder']]
@@ -400,6 +463,11 @@ def main(tier, seed):
         p = merge_all(run_shards(run_bitmap, [(s_, env) for s_ in split(use, 64)]))
         rep.add_part(bname, p, bounds=dict(structures=len(use), **env))
 
+    dc = dnp_cases(tier)
+    p = merge_all(run_shards(run_dnp, split(dc, 64)))
+    rep.add_part('dnp-spans', p, bounds={'cases': len(dc), 'tokens': DNP_TOKENS, 'max_span_content': 3 if tier == 'quick' else 4},
+                 rule='221YYY followed by every sequence of elements and pure state operators (201 / 202 / 208 open and cancel), YYY from '
+                      '1 to one more than the sequence, then elements outside classes 1-9; 1 subset and 2 compressed; plain and compiled')
     lc = large_cases(tier)
     p = merge_all(run_shards(run_large, [[c] for c in lc]))
     rep.add_part('large', p, bounds={'cases': [c[0] for c in lc]},
